@@ -40,15 +40,19 @@ type SigCase struct {
 	Loc  *SigLoc  `json:"loc"`
 }
 
+// The five signatures share one parameter table (their Params are slices of it with spare capacity behind them), the
+// way a schema built from a table of common parameters does; a function table lives as long as the shard that uses it,
+// so whatever a request writes into the schema is seen by the later ones.
 func sigFuncs() map[string]schema.FunctionSignature {
 	p := func(n string) function.Parameter { return function.Parameter{Name: n, Type: cty.DynamicPseudoType} }
 	v := p("v")
+	tbl := []function.Parameter{p("a"), p("b"), p("c")}
 	return map[string]schema.FunctionSignature{
-		"f0":  {ReturnType: cty.String, Params: []function.Parameter{}},
-		"f1":  {ReturnType: cty.String, Params: []function.Parameter{p("a")}},
-		"f2":  {ReturnType: cty.String, Params: []function.Parameter{p("a"), p("b")}},
-		"fv":  {ReturnType: cty.String, VarParam: &v},
-		"f1v": {ReturnType: cty.String, Params: []function.Parameter{p("a")}, VarParam: &v},
+		"f0":  {ReturnType: cty.String, Params: tbl[:0]},
+		"f1":  {ReturnType: cty.String, Params: tbl[:1]},
+		"f2":  {ReturnType: cty.String, Params: tbl[:2]},
+		"fv":  {ReturnType: cty.String, Params: tbl[:0], VarParam: &v},
+		"f1v": {ReturnType: cty.String, Params: tbl[:1], VarParam: &v},
 	}
 }
 
@@ -127,7 +131,7 @@ func (r *sigRenderer) expr(e *SigExpr, path []int) {
 	}
 }
 
-func runSigCase(wt *watch, c *SigCase, idx int) []Event {
+func runSigCase(wt *watch, funcs map[string]schema.FunctionSignature, c *SigCase, idx int) []Event {
 	out := []Event{}
 	schemaBody := &schema.BodySchema{Attributes: map[string]*schema.AttributeSchema{
 		"attr": {IsOptional: true, Constraint: schema.AnyExpression{OfType: cty.DynamicPseudoType}},
@@ -189,7 +193,7 @@ func runSigCase(wt *watch, c *SigCase, idx int) []Event {
 			continue
 		}
 		env := envFor(schemaBody, src)
-		env.R.Ctxs["p1"].Functions = sigFuncs()
+		env.R.Ctxs["p1"].Functions = funcs
 		o := env.Run(wt, Q{Kind: "signature", Path: "p1", File: "t.tf", Pos: PosAt(src, off)})
 		obs := Event{"k": "none"}
 		if s, ok := o.Value.(*lang.FunctionSignature); ok && s != nil {
@@ -244,9 +248,10 @@ func cmdSig(fs *flag.FlagSet) {
 			defer wg.Done()
 			wt := newWatch()
 			tw := newTraceWriter(fmt.Sprintf("%s.%03d.ndjson", *out, s))
+			funcs := sigFuncs()
 			defer tw.Close()
 			for i := s; i < len(cases); i += *shards {
-				for _, ev := range runSigCase(wt, cases[i], i) {
+				for _, ev := range runSigCase(wt, funcs, cases[i], i) {
 					tw.Emit(ev)
 					counts[s]++
 				}
